@@ -233,7 +233,9 @@ def _get_guard(mod):
     if key not in _GUARDS:
         from mc import seams
         import numqi  # noqa
-        _GUARDS[key] = seams.ImmutabilityGuard(prefixes, getattr(mod, 'GUARD_EXCLUDE', ()), getattr(mod, 'GUARD_LAYOUT', ())).install()
+        _GUARDS[key] = seams.ImmutabilityGuard(prefixes, getattr(mod, 'GUARD_EXCLUDE', ()), getattr(mod, 'GUARD_LAYOUT', ()),
+                                               own_exclude=tuple(getattr(mod, 'GUARD_OWN_EXCLUDE', ())) + tuple(seams.SHARED_RESULT_FUNCTIONS),
+                                               own=getattr(mod, 'GUARD_OWN', True)).install()
     return _GUARDS[key]
 
 
@@ -255,7 +257,13 @@ def _execute_case(mod, case, env):
             mod.run_case(case, out, env)
         if guard is not None:
             for qual, idx in guard.drain():
-                if isinstance(idx, str) and idx.startswith('layout:'):
+                if isinstance(idx, str) and idx == 'own:clobber':
+                    out.violation('ownership/%s/earlier_result_overwritten_by_later_call' % qual,
+                                  'a later call of %s changed the array(s) returned by an earlier call (result buffer shared between calls)' % qual)
+                elif isinstance(idx, str) and idx.startswith('own:'):
+                    out.violation('ownership/%s/result_aliases_library_state' % qual,
+                                  '%s hands out library-held memory: after overwriting the returned array(s) in place, the same call returns something else (%s)' % (qual, idx[4:]))
+                elif isinstance(idx, str) and idx.startswith('layout:'):
                     out.violation('layout/%s/result_depends_on_memory_layout' % qual,
                                   '%s gives a different result (%s) when its array arguments are handed over in another memory layout (Fortran order / strided view)' % (qual, idx[7:]))
                 else:
